@@ -392,6 +392,8 @@ class AsyncIOClient(ABC):
                     # the exception itself is logged through exc_info, which copes with one whose __str__ fails
                     self.logger.error("Error in receive callback", exc_info=True)
             self.queue.task_done()
+            # a backlog is taken off the queue without suspending: give other tasks a turn between two messages
+            await asyncio.sleep(0)
         self.logger.info("process queue loop terminated")
 
     def log_before_retry(self, retry_state):
